@@ -846,7 +846,8 @@ TrHTowOf    == IsOp("h_tow_of")    /\ UNCHANGED sw /\ Has(E.res, "w") /\ H!HTowO
 TrHFromTow  == IsOp("h_from_tow")  /\ UNCHANGED sw /\ H!HFromTow(Big(E.wk)) /\ EpIs(E.res, e')
 (* F1 through floor / ceil / round with the step taken from the register *)
 Dev_F1H ==
-  /\ Open("F1") /\ UNCHANGED sw /\ KeepD /\ KeepS /\ KeepW /\ l <= Len(Rec) /\ IsEp(E.res)
+  /\ Open("F1") /\ UNCHANGED sw /\ KeepD /\ KeepS /\ KeepW /\ l <= Len(Rec)
+  /\ E.op \in {"h_floor_reg", "h_ceil_reg", "h_round_reg"} /\ IsEp(E.res)
   /\ \/ /\ IsOp("h_floor_reg") /\ (M!F1Class(e.v) \/ M!F1Class(d))
           /\ e' = X!Ep(e.ts, M!F1Floor(e.v, d)) /\ e'.v # M!Floor(e.v, d)
       \/ /\ IsOp("h_ceil_reg") /\ (M!F1Class(e.v) \/ M!F1Class(d) \/ M!F1Class(M!F1Floor(e.v, d)))
